@@ -377,6 +377,9 @@ class ExecBase:
             return [("ok", p1, SV(acc.t, ty=kindname))]
         return s.seq(nodes, p, k)
 
+    def e_Set(s, n, p):
+        return s.seq(list(n.elts), p, lambda p1, vs: [("ok", p1, SV(fresh("setlit"), special=("setlit", list(vs))))])
+
     def e_Dict(s, n, p):
         if any(k is None for k in n.keys):
             raise Unsupported("dict unpacking in literal")
@@ -451,6 +454,11 @@ class ExecBase:
             return s.eq(p, a, b)
         if isinstance(op, ast.NotEq):
             return Not(s.eq(p, a, b))
+        if isinstance(op, ast.GtE) and a.get("special") and a.get("special")[0] == "set" and \
+                b.get("special") and b.get("special")[0] == "setlit":
+            # set(seq) >= {c1, c2, ...}: every constant is a member of the sequence
+            from .calls import seq_member
+            return And([seq_member(a.get("special")[1].t, c.t) for c in b.get("special")[1]])
         if isinstance(op, (ast.Lt, ast.LtE, ast.Gt, ast.GtE)):
             x, y = num(a.t), num(b.t)
             return {ast.Lt: x < y, ast.LtE: x <= y, ast.Gt: x > y, ast.GtE: x >= y}[type(op)]
